@@ -345,6 +345,45 @@ fn check_wrapped(sub: &str, l: &J, lt: &str, r: &J, rt: &str, st: &mut Stats) ->
     }
 }
 
+/// The operator gate itself, called directly: `Variable::compare(op, other)` gives
+/// Some(boolean) for `==` / `!=` on any pair and for ordering on two numbers, and
+/// None (which the interpreter turns into null) for ordering on anything else.
+/// It must agree with what `l OP r` evaluates to.
+fn check_api(sub: &str, lt: &str, rt: &str, st: &mut Stats) -> CaseResult {
+    use jmespath::ast::Comparator;
+    let (lv, rv) = match (jmespath::Variable::from_json(lt), jmespath::Variable::from_json(rt)) {
+        (Ok(a), Ok(b2)) => (a, b2),
+        _ => return Ok(()),
+    };
+    let doc = format!("{{\"l\":{},\"r\":{}}}", lt, rt);
+    let ops = [(Comparator::Equal, "=="), (Comparator::NotEqual, "!="), (Comparator::LessThan, "<"), (Comparator::LessThanEqual, "<="), (Comparator::GreaterThan, ">"), (Comparator::GreaterThanEqual, ">=")];
+    for (a, b2, at, bt) in [(&lv, &rv, "l", "r"), (&rv, &lv, "r", "l"), (&lv, &lv, "l", "l")] {
+        for (op, text) in &ops {
+            st.eval();
+            let direct = match catch(std::panic::AssertUnwindSafe(|| a.compare(op, b2))) {
+                Ok(d) => d,
+                Err(p) => return Err(Failure::new(sub, "panic", p, json!({"l": lt, "r": rt}))),
+            };
+            let expr = format!("{} {} {}", at, text, bt);
+            let via = search_text(&expr, &doc);
+            let agrees = match (&direct, &via) {
+                (Some(x), ImpOut::Ok(J::Bool(y))) => x == y,
+                (None, ImpOut::Ok(J::Null)) => true,
+                _ => false,
+            };
+            if !agrees {
+                return Err(Failure::new(
+                    sub,
+                    "compare-api-differs-from-operator",
+                    format!("Variable::compare({:?}) on ({}, {}) gives {:?} but `{}` evaluates to {}", op, if at == "l" { lt } else { rt }, if bt == "l" { lt } else { rt }, direct, expr, via.brief()),
+                    json!({"l": lt, "r": rt, "expression": expr, "document": doc}),
+                ));
+            }
+        }
+    }
+    Ok(())
+}
+
 fn pairs(src: &mut Src, st: &mut Stats, _env: &Env) -> CaseResult {
     let ((l, lt), (r, rt), kind) = match gen_pair(src, st) {
         Some(x) => x,
@@ -352,6 +391,7 @@ fn pairs(src: &mut Src, st: &mut Stats, _env: &Env) -> CaseResult {
     };
     // the algebraic laws hold for every pair
     laws_only("pairs", &lt, &rt, matches!((&l, &r), (J::Num(_), J::Num(_))), st)?;
+    check_api("pairs", &lt, &rt, st)?;
     // the *values* of comparisons between near ties are outside the statement
     if let (J::Num(a), J::Num(b2)) = (&l, &r) {
         if !well_separated(a.f(), b2.f()) {
